@@ -11,6 +11,11 @@ Q, R = O.Q, O.R
 M381 = (1 << 381) - 1
 
 
+LONG_RUN_G1 = int('011781d236a772f890aac1a1597a36cb9156535f94219d508e17a7a4acf613f7f18f7b0e2e6e01beed075e078596181a', 16)                     # 34 increments
+LONG_RUN_G2 = (int('0bbb8c67ec69e10a6663862eb2efdfd652dab1c8c95aa4e3d676434a9f686c4c9d4deeea5bd8aa52ed591e0baad39efb', 16),
+               int('02a3e791eee2badbd6b835ac14781ba1297b6d01c416ae0397d3c7efbcbc642f024745f8dbedc2d4861706efd5a3a30f', 16))                  # 35 increments
+
+
 def rhs1(x):
     return (x * x * x + 4) % Q
 
@@ -205,6 +210,11 @@ def worker(sh):
         import c09
         for P, d in c09.boundary_y_points(rng, 6):
             h1.append(P[0] | (rng.getrandbits(3) << 381))
+    # the far end of try-and-increment: inputs whose first curve point is MORE than 32 increments away (a 2^-32 fraction; these two were found
+    # by a 12-thread exhaustive search during seeded round 9 and are re-verified by the reference model on every run)
+    if sh.index < 4:
+        assert tai1((LONG_RUN_G1 & M381) % Q)[1] == 34
+        h1.append(LONG_RUN_G1)
     for h in h1:
         hb = h.to_bytes(48, 'big').hex()
         add('c.g1affine_from_hash %s' % hb, 'h1', h)
@@ -260,6 +270,9 @@ def worker(sh):
             assert r2[1 if want_real else 0] == 0
             h2.append((x1 | (rng.getrandbits(3) << 381), x0 | (rng.getrandbits(3) << 381)))
             break
+    if sh.index < 4:
+        assert tai2(((LONG_RUN_G2[1] & M381) % Q, (LONG_RUN_G2[0] & M381) % Q))[1] == 35
+        h2.append(LONG_RUN_G2)
     for (f0, f1) in h2:      # f0 = first 48 bytes (c1), f1 = second (c0)
         add('c.g2affine_from_hash %s' % (f0.to_bytes(48, 'big') + f1.to_bytes(48, 'big')).hex(), 'h2', f0, f1)
     # ---- samplers
@@ -340,7 +353,7 @@ def worker(sh):
                 P = gc1.dec_a(out[1])
                 start = (h & M381) % Q
                 x, n = tai1(start)
-                cls = 'incr%d%s%s' % (min(n, 9), '/flagbits' if h >> 381 else '', '/>=q' if (h & M381) >= Q else '')
+                cls = 'incr%s%s%s' % (min(n, 9) if n < 32 else '>=32', '/flagbits' if h >> 381 else '', '/>=q' if (h & M381) >= Q else '')
                 if P is None or not O.E1.on_curve(P):
                     fail('from_hash result is not a curve point', 'hash:%s:off-curve' % op)
                 elif P[0] != x:
@@ -377,7 +390,7 @@ def worker(sh):
                 P = gc2.dec_a(out[1])
                 start = ((f1 & M381) % Q, (f0 & M381) % Q)
                 x, n = tai2(start)
-                cls = 'incr%d%s%s' % (min(n, 9), '/flagbits' if (f0 >> 381 or f1 >> 381) else '', '/c0-wraps' if start[0] + n >= Q else '')
+                cls = 'incr%s%s%s' % (min(n, 9) if n < 32 else '>=32', '/flagbits' if (f0 >> 381 or f1 >> 381) else '', '/c0-wraps' if start[0] + n >= Q else '')
                 rr = rhs2(x)
                 if rr[1] == 0 or rr[0] == 0:
                     cls += '/rhs-in-Fq:%s' % ('residue' if O.fq_legendre(rr[0]) == 1 else 'non-residue') if rr[1] == 0 else '/rhs-imaginary'
